@@ -1433,4 +1433,291 @@ Proof.
     + discriminate.
   - discriminate.
 Qed.
+
+(* "prefers integers" for the whole function, PARTIAL: bounds whose hulls are exact (every non-algebraic kind,
+   algebraic points, degree-1 algebraic numbers, infinities) *)
+Definition ratlike (v : value) : Prop := v_is_rational v = true \/ v_is_infinity v = true.
+
+Lemma rn_refine_rational x : va_is_rational x = true -> va_is_rational (rn_refine x) = true.
+Proof.
+  destruct x as [q|p lo hi]; cbn [rn_refine va_is_rational]; [trivial|]. intros H.
+  destruct (psgn_q p (q_mid lo hi) =? 0); [reflexivity|]. destruct (_ <? 0); exact H.
+Qed.
+Lemma refine_away_rational fuel : forall x q x', rn_refine_away fuel x q = Some x' ->
+  va_is_rational x = true -> va_is_rational x' = true.
+Proof.
+  induction fuel as [|f IH]; intros x q x' H R; cbn [rn_refine_away] in H; [discriminate|].
+  destruct x as [r|p lo hi]; [injection H as <-; exact R|].
+  destruct (q_le q lo || q_le hi q); [injection H as <-; exact R|].
+  eapply IH; [exact H|]. apply rn_refine_rational. exact R.
+Qed.
+Lemma va_sep_rational fuel : forall x y x' y', va_sep fuel x y = Some (x', y') ->
+  (va_is_rational x = true -> va_is_rational x' = true) /\ (va_is_rational y = true -> va_is_rational y' = true).
+Proof.
+  induction fuel as [|f IH]; intros x y x' y' H; cbn [va_sep] in H; [discriminate|].
+  destruct x as [a|p lo hi].
+  - destruct (rn_refine_away (S f) y a) as [y1|] eqn:E; cbn in H; try discriminate. injection H as <- <-.
+    split; [trivial|]. apply (refine_away_rational _ _ _ _ E).
+  - destruct y as [b|p' lo' hi'].
+    + destruct (rn_refine_away (S f) (RA p lo hi) b) as [x1|] eqn:E; cbn in H; try discriminate. injection H as <- <-.
+      split; [|trivial]. apply (refine_away_rational _ _ _ _ E).
+    + destruct (q_le hi lo' || q_le hi' lo).
+      * injection H as <- <-. split; trivial.
+      * destruct (IH _ _ _ _ H) as [I1 I2]. split; intros R; [apply I1|apply I2]; apply rn_refine_rational; exact R.
+Qed.
+Lemma v_cmp_sep_ratlike fuel a b c a1 b1 : v_cmp_sep fuel a b = ROk (c, a1, b1) ->
+  (ratlike a -> ratlike a1) /\ (ratlike b -> ratlike b1).
+Proof.
+  intros H. unfold v_cmp_sep in H. destruct (v_cmp fuel a b) as [c0| |]; cbn [vr_bind] in H; try discriminate.
+  destruct (c0 =? 0); [injection H as <- <- <-; split; trivial|].
+  destruct a as [za|da|qa|xa| |], b as [zb|db|qb|xb| |]; cbn [v_fin_rat] in H;
+    try (injection H as <- <- <-; split; trivial).
+  all: try (match type of H with context [rn_refine_away ?f ?x ?q] =>
+         destruct (rn_refine_away f x q) as [x1|] eqn:ER; cbn in H; try discriminate; injection H as <- <- <-;
+         split; trivial; intros [R|R]; [left|discriminate R]; cbn [v_is_rational] in *;
+         apply (refine_away_rational _ _ _ _ ER R) end).
+  destruct (va_sep fuel xa xb) as [[x1 y1]|] eqn:ES; cbn in H; try discriminate. injection H as <- <- <-.
+  destruct (va_sep_rational _ _ _ _ _ ES) as [I1 I2].
+  split; intros [R|R]; try discriminate R; left; cbn [v_is_rational] in *; [apply I1|apply I2]; exact R.
+Qed.
+
+Lemma hull_upper_exact v s q s' : vok L v -> v_is_rational v = true -> v_hull_upper v s = ROk (q, s') ->
+  q_wf q /\ s' = s /\ exists x, den L v = EFin x /\ x ~ LQ L (QofR q).
+Proof.
+  intros Hv R H. destruct v as [z|d|r|x| |]; cbn [v_hull_upper] in H; try discriminate.
+  - injection H as <- <-. split; [apply q_wf_int|]. split; [reflexivity|]. eexists. split; [reflexivity|].
+    apply LQ_eq. symmetry. apply QofR_int.
+  - injection H as <- <-. destruct (q_from_dyadic_spec d) as [W V]. split; [exact W|]. split; [reflexivity|].
+    eexists. split; [reflexivity|]. apply LQ_eq. symmetry. exact V.
+  - injection H as <- <-. split; [exact Hv|]. split; [reflexivity|]. eexists. split; [reflexivity|apply Leq_refl].
+  - cbn [v_is_rational] in R. rewrite R in H. destruct (va_get_rational x) as [q0| |] eqn:E; cbn in H; try discriminate.
+    injection H as <- <-. destruct (v_get_rational_spec (VAlg x) q0 Hv E) as [W D].
+    split; [exact W|]. split; [reflexivity|]. eexists. split; [reflexivity|exact D].
+Qed.
+Lemma hull_lower_exact v s q s' : vok L v -> v_is_rational v = true -> v_hull_lower v s = ROk (q, s') ->
+  q_wf q /\ s' = s /\ exists x, den L v = EFin x /\ x ~ LQ L (QofR q).
+Proof.
+  intros Hv R H. destruct v as [z|d|r|x| |]; cbn [v_hull_lower] in H; try discriminate.
+  - injection H as <- <-. split; [apply q_wf_int|]. split; [reflexivity|]. eexists. split; [reflexivity|].
+    apply LQ_eq. symmetry. apply QofR_int.
+  - injection H as <- <-. destruct (q_from_dyadic_spec d) as [W V]. split; [exact W|]. split; [reflexivity|].
+    eexists. split; [reflexivity|]. apply LQ_eq. symmetry. exact V.
+  - injection H as <- <-. split; [exact Hv|]. split; [reflexivity|]. eexists. split; [reflexivity|apply Leq_refl].
+  - cbn [v_is_rational] in R. rewrite R in H. destruct (va_get_rational x) as [q0| |] eqn:E; cbn in H; try discriminate.
+    injection H as <- <-. destruct (v_get_rational_spec (VAlg x) q0 Hv E) as [W D].
+    split; [exact W|]. split; [reflexivity|]. eexists. split; [reflexivity|exact D].
+Qed.
+
+Lemma between_core_prefers_int rec fuel lo slo hi shi v k :
+  vok L lo -> vok L hi -> ratlike lo -> ratlike hi -> ecmp L (den L lo) (den L hi) = Lt ->
+  between_core rec fuel lo slo hi shi = ROk v ->
+  within (den L lo) slo (EFin (LQ L (inject_Z k))) (den L hi) shi ->
+  v_is_integer v = true.
+Proof.
+  intros Hlo Hhi Rlo Rhi LT H [W1 W2].
+  assert (FF : forall xl xh, den L lo = EFin xl -> den L hi = EFin xh ->
+     vr_bind (v_hull_upper lo slo) (fun ha => vr_bind (v_hull_lower hi shi) (fun hb =>
+       if q_cmp (fst ha) (fst hb) =? 0 then rec (v_refine_bound lo) slo (v_refine_bound hi) shi
+       else vr_map VRat (r_of_opt (v_pick fuel (fst ha) (snd ha) (fst hb) (snd hb))))) = ROk v ->
+     v_is_integer v = true).
+  { intros xl xh El Eh H0.
+    assert (Rl : v_is_rational lo = true) by (destruct Rlo as [R|R]; [exact R|destruct lo; discriminate]).
+    assert (Rh : v_is_rational hi = true) by (destruct Rhi as [R|R]; [exact R|destruct hi; discriminate]).
+    destruct (v_hull_upper lo slo) as [[qa sa']| |] eqn:HU; cbn [vr_bind] in H0; try discriminate.
+    destruct (v_hull_lower hi shi) as [[qb sb']| |] eqn:HL; cbn [vr_bind fst snd] in H0; try discriminate.
+    destruct (hull_upper_exact _ _ _ _ Hlo Rl HU) as (Wa & -> & x1 & E1 & D1).
+    destruct (hull_lower_exact _ _ _ _ Hhi Rh HL) as (Wb & -> & x2 & E2 & D2).
+    rewrite El in E1. injection E1 as <-. rewrite Eh in E2. injection E2 as <-.
+    rewrite El, Eh in LT. cbn [ecmp] in LT.
+    assert (LTq : (QofR qa < QofR qb)%Q).
+    { apply LQ_lt_inv. eapply Llt_eq_l; [apply Leq_sym; exact D1|]. eapply Llt_eq_r; [exact LT|exact D2]. }
+    replace (q_cmp qa qb =? 0) with false in H0.
+    2:{ symmetry. apply Z.eqb_neq. intros C. apply (q_cmp_eq0 _ _ Wa Wb) in C. rewrite C in LTq. apply (Qlt_irrefl _ LTq). }
+    destruct (v_pick fuel qa slo qb shi) as [r|] eqn:EP; cbn in H0; try discriminate. injection H0 as <-.
+    cbn [v_is_integer]. rewrite El in W1. rewrite Eh in W2. cbn [ecmp] in W1, W2.
+    apply (v_pick_prefers_int _ _ _ _ _ _ k Wa Wb LTq EP).
+    - destruct slo; cbn [bnd_lo].
+      + apply LQ_lt_inv. eapply Llt_eq_l; [apply Leq_sym; exact D1|exact W1].
+      + apply Qle_alt. rewrite <- (Q_cmp L OK). rewrite <- (Lcmp_eq_l _ _ _ D1). exact W1.
+    - destruct shi; cbn [bnd_hi].
+      + apply LQ_lt_inv. eapply Llt_eq_r; [exact W2|exact D2].
+      + apply Qle_alt. rewrite <- (Q_cmp L OK). rewrite <- (Lcmp_eq_r _ _ _ D2). exact W2. }
+  destruct lo as [zl|dl|ql|xl| |], hi as [zh|dh|qh|xh| |]; cbn [between_core] in H; cbn [den ecmp] in LT; try discriminate LT;
+    try (eapply FF; [reflexivity|reflexivity|exact H]).
+  all: try (match type of H with vr_bind ?h _ = _ => destruct h as [[? ?]| |]; cbn in H; try discriminate; injection H as <-; reflexivity end).
+  injection H as <-. reflexivity.
+Qed.
+
+Lemma v_between_prefers_int_partial fuel a sa b sb v k : vok L a -> vok L b -> ratlike a -> ratlike b ->
+  v_between fuel a sa b sb = ROk v ->
+  match ecmp L (den L a) (den L b) with
+  | Lt => within (den L a) sa (EFin (LQ L (inject_Z k))) (den L b) sb
+  | Gt => within (den L b) sb (EFin (LQ L (inject_Z k))) (den L a) sa
+  | Eq => False
+  end ->
+  v_is_integer v = true.
+Proof.
+  intros Ha Hb Ra Rb H W. unfold v_between in H. destruct fuel as [|n]; [discriminate H|].
+  rewrite between_rec_S in H.
+  destruct (v_cmp_sep (S n) a b) as [[[c a1] b1]| |] eqn:ES; cbn [vr_bind] in H; try discriminate.
+  destruct (v_cmp_sep_spec _ _ _ _ _ _ Ha Hb ES) as (SC & Ha1 & Hb1 & Da & Db & SEP).
+  destruct (v_cmp_sep_ratlike _ _ _ _ _ _ ES) as [RA1 RB1].
+  destruct (ecmp L (den L a) (den L b)) eqn:EC; [contradiction| |]; cbn in SC.
+  - assert (Cneg : c < 0) by (destruct c; cbn in SC; lia).
+    replace (c =? 0) with false in H by (symmetry; apply Z.eqb_neq; lia).
+    replace (0 <? c) with false in H by (symmetry; apply Z.ltb_ge; lia).
+    assert (LT1 : ecmp L (den L a1) (den L b1) = Lt).
+    { rewrite (ecmp_eq_l _ _ _ Da), (ecmp_eq_r _ _ _ Db). exact EC. }
+    eapply (between_core_prefers_int _ _ _ _ _ _ _ k Ha1 Hb1 (RA1 Ra) (RB1 Rb) LT1 H).
+    eapply within_eeq; [apply eeq_sym; exact Da|apply eeq_sym; exact Db|exact W].
+  - assert (Cpos : 0 < c) by (destruct c; cbn in SC; lia).
+    replace (c =? 0) with false in H by (symmetry; apply Z.eqb_neq; lia).
+    replace (0 <? c) with true in H by (symmetry; apply Z.ltb_lt; lia).
+    assert (LT1 : ecmp L (den L b1) (den L a1) = Lt).
+    { rewrite (ecmp_eq_l _ _ _ Db), (ecmp_eq_r _ _ _ Da), (ecmp_opp (den L a) (den L b)), EC. reflexivity. }
+    eapply (between_core_prefers_int _ _ _ _ _ _ _ k Hb1 Ha1 (RB1 Rb) (RA1 Ra) LT1 H).
+    eapply within_eeq; [apply eeq_sym; exact Db|apply eeq_sym; exact Da|exact W].
+Qed.
+
+(* ------------------------------------------------------------------ 6. hashing: the bisection path depends only on the number *)
+Lemma hash_loop_ext prec : forall (f g : dyadic -> Z) lb m ub, (forall d, Z.sgn (f d) = Z.sgn (g d)) ->
+  v_hash_loop prec f lb m ub = v_hash_loop prec g lb m ub.
+Proof.
+  induction prec as [|p IH]; intros f g lb m ub E; cbn [v_hash_loop]; [reflexivity|].
+  set (m2 := dy_div_2exp AliasA (dy_add NoAlias m lb ub) (dy_add NoAlias m lb ub) 1).
+  specialize (E m2) as E2.
+  assert (Z0 : (f m2 =? 0) = (g m2 =? 0)).
+  { destruct (f m2), (g m2); cbn in E2; try discriminate; reflexivity. }
+  assert (ZL : (f m2 <? 0) = (g m2 <? 0)).
+  { destruct (f m2), (g m2); cbn in E2; try discriminate; reflexivity. }
+  rewrite Z0, ZL. destruct (g m2 =? 0); [reflexivity|]. destruct (g m2 <? 0); apply IH; exact E.
+Qed.
+
+(* what the four representations feed into the common hashing scheme *)
+Definition hint (v : value) : Z :=
+  match v with VInt z => z | VDy d => da d | VRat q => fst q | VAlg x => fst (rn_lo x) | _ => 0 end.
+Definition hcmp (v : value) (m : dyadic) : Z :=
+  match v with
+  | VDy d => dy_cmp d m
+  | VRat q => q_cmp_dyadic q m
+  | VAlg x => rn_cmp_q x (q_from_dyadic m)
+  | _ => 0
+  end.
+Definition hfl (v : value) : Z := match v_floor v with ROk z => z | _ => 0 end.
+Definition hce (v : value) : Z := match v_ceiling v with ROk z => z | _ => 0 end.
+Lemma hash_path_form prec v : fin v ->
+  v_hash_path prec v = if v_is_integer v then HInt (hint v) else v_hash_frac prec (hcmp v) (hfl v) (hce v).
+Proof. destruct v; intros F; try contradiction; reflexivity. Qed.
+
+Lemma hint_spec v : vok L v -> v_is_integer v = true -> eeq L (den L v) (EFin (LQ L (inject_Z (hint v)))).
+Proof.
+  intros Hv H. unfold eeq. destruct v as [z|d|q|x| |]; cbn [v_is_integer den hint ecmp vok] in *; try discriminate.
+  - apply Leq_refl.
+  - unfold dy_is_integer in H. apply N.eqb_eq in H. apply LQ_eq. unfold QofD. rewrite H, pow2_0. field.
+  - unfold q_is_integer in H. apply Z.eqb_eq in H. apply LQ_eq. unfold QofR. rewrite H. field.
+  - destruct x as [q|p lo hi]; cbn [va_is_integer rn_lo] in *; try discriminate.
+    pose proof (P_RQ_wf L OK _ Hv) as W. eapply Leq_trans; [apply (D_RQ L OK _ W)|].
+    unfold q_is_integer in H. apply Z.eqb_eq in H. apply LQ_eq. unfold QofR. rewrite H. field.
+Qed.
+Lemma hcmp_spec v m x : vok L v -> v_is_integer v = false -> den L v = EFin x ->
+  Z.sgn (hcmp v m) = cmp_to_Z (Lcmp L x (LQ L (QofD m))).
+Proof.
+  intros Hv H E. destruct v as [z|d|q|y| |]; cbn [v_is_integer den hcmp vok] in *; try discriminate; injection E as <-.
+  - rewrite dy_cmp_spec, (Q_cmp L OK). reflexivity.
+  - rewrite (q_cmp_dyadic_spec _ _ Hv), sgn_cmp_to_Z, (Q_cmp L OK). reflexivity.
+  - rewrite (cmp_q_dy _ _ Hv), sgn_cmp_to_Z. reflexivity.
+Qed.
+
+Lemma v_hash_path_spec prec u v : vok L u -> vok L v -> int_free u -> int_free v ->
+  eeq L (den L u) (den L v) -> v_hash_path prec u = v_hash_path prec v.
+Proof.
+  intros Hu Hv Fu Fv E.
+  destruct (den L u) as [|xu|] eqn:Eu; destruct (den L v) as [|xv|] eqn:Ev; try discriminate E.
+  - destruct u; try discriminate Eu. destruct v; try discriminate Ev. reflexivity.
+  - assert (FU : fin u) by (destruct u; try discriminate Eu; exact I).
+    assert (FV : fin v) by (destruct v; try discriminate Ev; exact I).
+    rewrite (hash_path_form _ _ FU), (hash_path_form _ _ FV).
+    assert (E' : eeq L (den L u) (den L v)) by (rewrite Eu, Ev; exact E).
+    rewrite (is_integer_repr_indep _ _ Hu Hv Fu Fv E').
+    destruct (v_is_integer v) eqn:IV.
+    + f_equal. pose proof (is_integer_repr_indep _ _ Hu Hv Fu Fv E') as IU. rewrite IV in IU.
+      pose proof (hint_spec _ Hu IU) as H1. pose proof (hint_spec _ Hv IV) as H2.
+      assert (Q : (inject_Z (hint u) == inject_Z (hint v))%Q).
+      { apply LQ_eq_inv. change (eeq L (EFin (LQ L (inject_Z (hint u)))) (EFin (LQ L (inject_Z (hint v))))).
+        eapply eeq_trans; [apply eeq_sym; exact H1|]. eapply eeq_trans; [exact E'|exact H2]. }
+      unfold Qeq in Q. cbn in Q. lia.
+    + pose proof (is_integer_repr_indep _ _ Hu Hv Fu Fv E') as IU. rewrite IV in IU.
+      assert (FL : hfl u = hfl v).
+      { unfold hfl. destruct (v_floor u) as [a| |] eqn:F1; destruct (v_floor v) as [b| |] eqn:F2;
+          try (exfalso; destruct u; try contradiction; discriminate F1);
+          try (exfalso; destruct v; try contradiction; discriminate F2).
+        exact (floor_repr_indep u v a b Hu Hv Fu Fv E' F1 F2). }
+      assert (CE : hce u = hce v).
+      { unfold hce. destruct (v_ceiling u) as [a| |] eqn:F1; destruct (v_ceiling v) as [b| |] eqn:F2;
+          try (exfalso; destruct u; try contradiction; discriminate F1);
+          try (exfalso; destruct v; try contradiction; discriminate F2).
+        exact (ceiling_repr_indep u v a b Hu Hv Fu Fv E' F1 F2). }
+      rewrite FL, CE. unfold v_hash_frac. f_equal. apply hash_loop_ext. intros m.
+      rewrite (hcmp_spec _ m _ Hu IU Eu), (hcmp_spec _ m _ Hv IV Ev). f_equal. apply Lcmp_eq_l. exact E.
+  - destruct u; try discriminate Eu. destruct v; try discriminate Ev. reflexivity.
+Qed.
 End Line.
+
+(* ------------------------------------------------------------------ 7. a concrete line: Q itself, payloads = rational points.
+   Shows that the premises bundled in line_ok are satisfiable, and instantiates every _cond theorem to a closed
+   statement about all values whose algebraic payloads are points (every kind of value.c's dispatch occurs). *)
+Definition QL : line := {|
+  LR := Q; Lcmp := Qcompare; LQ := fun q => q; Ladd := Qplus; Lmul := Qmult; Lopp := Qopp;
+  Lden := fun x => match x with RQ q => QofR q | RA _ _ _ => 0%Q end;
+  LP := fun x => match x with RQ q => q_wf q | RA _ _ _ => False end |}.
+
+Lemma Qcompare_refl a : (a ?= a)%Q = Eq.
+Proof. apply Qeq_alt. reflexivity. Qed.
+
+Lemma QL_ok : line_ok QL.
+Proof.
+  constructor; unfold Leq, Llt; cbn [QL LR Lcmp LQ Ladd Lmul Lopp Lden LP].
+  - apply Qcompare_refl.
+  - intros a b. symmetry. apply Qcompare_antisym.
+  - intros a b c H. apply Qeq_alt in H. rewrite H. reflexivity.
+  - intros a b c H1 H2. apply Qlt_alt in H1, H2. apply Qlt_alt. eapply Qlt_trans; eassumption.
+  - reflexivity.
+  - intros; apply Qcompare_refl.
+  - intros; apply Qcompare_refl.
+  - intros; apply Qcompare_refl.
+  - intros a a' b b' H1 H2. apply Qeq_alt in H1, H2. apply Qeq_alt. rewrite H1, H2. reflexivity.
+  - intros a a' b b' H1 H2. apply Qeq_alt in H1, H2. apply Qeq_alt. rewrite H1, H2. reflexivity.
+  - intros a a' H1. apply Qeq_alt in H1. apply Qeq_alt. rewrite H1. reflexivity.
+  - trivial.
+  - trivial.
+  - intros; apply Qcompare_refl.
+  - intros p lo hi [].
+  - intros [a|p lo hi] q Hx Hq; [|contradiction]. cbn [rn_cmp_q]. apply (q_cmp_spec _ _ Hx Hq).
+  - intros fuel [a|? ? ?] [b|? ? ?] c Hx Hy H; try contradiction.
+    unfold rn_cmp, rn_eqb in H. cbn [rn_cmp_q] in H. rewrite (q_cmp_spec _ _ Hy Hx) in H.
+    rewrite <- Qcompare_antisym. destruct (QofR b ?= QofR a)%Q eqn:E; cbn [CompOpp cmp_to_Z Z.eqb] in *.
+    + injection H as <-. reflexivity.
+    + destruct fuel; cbn [rn_cmp_loop] in H; [discriminate|]. injection H as <-. cbn [rn_cmp_q].
+      rewrite (q_cmp_spec _ _ Hy Hx), E. reflexivity.
+    + destruct fuel; cbn [rn_cmp_loop] in H; [discriminate|]. injection H as <-. cbn [rn_cmp_q].
+      rewrite (q_cmp_spec _ _ Hy Hx), E. reflexivity.
+  - intros fuel [a|? ? ?] [b|? ? ?] z Hx Hy H; try contradiction. cbn [rn_add] in H. injection H as <-.
+    destruct (q_add_spec _ _ Hx Hy) as [W V]. split; [exact W|]. apply Qeq_alt. exact V.
+  - intros fuel [a|? ? ?] [b|? ? ?] z Hx Hy H; try contradiction. cbn [rn_mul] in H. injection H as <-.
+    destruct (q_mul_spec _ _ Hx Hy) as [W V]. split; [exact W|]. apply Qeq_alt. exact V.
+  - intros [a|? ? ?] Hx; [|contradiction]. cbn [rn_neg]. destruct (q_neg_spec _ Hx) as [W V].
+    split; [exact W|]. apply Qeq_alt. exact V.
+  - intros fuel [a|? ? ?] z Hx H; [|contradiction]. unfold rn_inv in H. destruct (rn_sgn (RQ a) =? 0); [discriminate|].
+    destruct fuel; cbn [rn_inv_loop] in H; [discriminate|]. destruct (q_inv a) as [i|] eqn:E; [|discriminate].
+    injection H as <-. destruct (q_inv_spec _ _ Hx E) as [W V]. split; [exact W|]. apply Qeq_alt. exact V.
+  - intros [a|? ? ?] Hx; [|contradiction]. cbn [rn_refine]. split; [exact Hx|apply Qcompare_refl].
+  - intros p lo hi [].
+Qed.
+
+(* every value whose algebraic payload is a point satisfies the integer-freeness invariant trivially *)
+Lemma QL_int_free v : vok QL v -> int_free v.
+Proof. destruct v as [?|?|?|[?|? ? ?]| |]; cbn; intros H; try exact I. contradiction. Qed.
+
+(* the closed instances used by Properties_C08.v *)
+Definition qden : value -> ext Q := den QL.
+Definition qok : value -> Prop := vok QL.
